@@ -193,7 +193,11 @@ def _check_proxy(plan):
     disp.next_result = ar
     before = len(disp.calls)
     if mode.startswith('async'):
-      got = getattr(proxy, n + '_async')(*args, **kwargs)
+      try:
+        got = getattr(proxy, n + '_async')(*args, **kwargs)
+      except Exception as e:
+        # the stub dispatcher accepts any call: whatever is raised here comes from the proxy itself
+        raise Violation(ID, 'proxy-raised', '%s_async(%d positional, keywords %r) raised %r before reaching the dispatcher' % (n, len(args), sorted(kwargs), e))
       if got is not ar:
         raise Violation(ID, 'async-result', '%s_async returned %r, not the dispatcher\'s pending result' % (n, got))
     else:
@@ -206,6 +210,10 @@ def _check_proxy(plan):
       except Boom as e:
         if mode != 'sync_fail' or e is not err:
           raise Violation(ID, 'sync-raise', '%s raised %r unexpectedly' % (n, e))
+      except Violation:
+        raise
+      except Exception as e:
+        raise Violation(ID, 'proxy-raised', '%s(%d positional, keywords %r) raised %r' % (n, len(args), sorted(kwargs), e))
     if len(other.calls) != other_before:
       raise Violation(ID, 'wrong-dispatcher', '%s called through one client reached the dispatcher of another client of the same interface' % n)
     if len(disp.calls) != before + 1:
@@ -247,6 +255,19 @@ def _check_uri(plan):
   netloc = ','.join('%s:%d' % (h, p) for h, p in u['eps'])
   scheme = u['scheme']
   parser = ScalesUriParser()
+  # an application's own parser lives in the same process: a subclass with its own tcp handling, and a scheme
+  # registered on that one instance; the default parser made before it answers as if it were alone
+  class _OwnParser(ScalesUriParser):
+    def _HandleTcp(self, uri_):
+      return StaticServerSetProvider([])
+  own = _OwnParser()
+  own.handlers['own'] = own._HandleTcp
+  try:
+    leaked = parser.Parse('own://h:1')
+  except Exception:
+    leaked = None
+  if leaked is not None:
+    raise Violation(ID, 'uri-scheme-accepted', "'own://h:1' accepted by a default parser after another parser object registered that scheme: %r" % (leaked,))
   if scheme.lower() == 'tcp':
     uri = '%s://%s' % (scheme, netloc)
     try:
